@@ -245,7 +245,7 @@ pub fn gen_not_outer_var_project(rng: &mut Rng, nodes: &[N]) -> Option<(Project,
       let n = &nodes[*i];
       n.is_named() && n.child(0).is_none() && !n.range().is_empty() && {
         let mut sibs: Box<dyn Iterator<Item = N>> = if forward { Box::new(n.next_all()) } else { Box::new(n.prev_all()) };
-        sibs.any(|s| s.kind_id() == n.kind_id() && s.child(0).is_none() && s.text() == n.text())
+        sibs.any(|s| s.is_named() && s.text() == n.text())
       }
     }).collect()
   } else { vec![] };
@@ -259,8 +259,8 @@ pub fn gen_not_outer_var_project(rng: &mut Rng, nodes: &[N]) -> Option<(Project,
     if !sibs.iter().any(|s| s.is_named()) {
       continue;
     }
-    // the same code: a leaf of the same kind with the same text
-    let twin = sibs.iter().any(|s| s.kind_id() == n.kind_id() && s.child(0).is_none() && s.text() == n.text());
+    // the same code: for a named leaf the comparison is by text (whatever the kinds: Python's `"` opens and closes a string)
+    let twin = sibs.iter().any(|s| s.is_named() && s.text() == n.text());
     let inner = RObj { keys: vec![RKey::Pattern { text: "$X".into(), selector: None, strictness: None }] };
     let rel = Box::new(Rel { rule: inner, stop: Stop::End, field: None });
     let neg = RObj::one(if forward { RKey::Precedes(rel) } else { RKey::Follows(rel) });
